@@ -32,6 +32,11 @@ def loops_in_order(fnode):
     return out
 
 
+class _AnyName:
+    def __contains__(self, item):
+        return True
+
+
 class Verifier(Executor):
     def __init__(self, repo, prover, contracts, fi, key=None):
         super().__init__(repo, prover, contracts, fi)
@@ -278,8 +283,20 @@ class Verifier(Executor):
                         alt(s2)
                         nxt.append(s2)
                 states = nxt
+        # a variable that is None at loop entry and is written in the loop (an optional scalar such as `best_idx = None`): at the loop head it is
+        # None or an arbitrary integer (over-approximation; a use as anything else is an Unsupported error at that use)
+        for nm in sorted(names):
+            if nm in st.env and st.env[nm] is None and nm not in (lc.get("var_types") or {}) and nm in getattr(self, "optional_int_names", lambda lc_: ())(lc):
+                nxt = []
+                for s in states:
+                    s2 = s.fork()
+                    s2.env[nm] = fresh_int(nm + tag)
+                    nxt.extend([s, s2])
+                states = nxt
         for s in states:
             for nm in names:
+                if nm in s.env and s.env[nm] is None and nm in getattr(self, "optional_int_names", lambda lc_: ())(lc):
+                    continue
                 if nm in s.env and not is_scalar(s.env[nm]) and nm not in (lc.get("var_types") or {}):
                     v = s.env[nm]
                     if v is None or isinstance(v, (tuple, dict)):
@@ -287,6 +304,11 @@ class Verifier(Executor):
                     if isinstance(v, (Arr, AExpr, Opaque, FuncRef)):
                         del s.env[nm]  # must be re-assigned before use in the iteration
         return states
+
+    def optional_int_names(self, lc):
+        """names the loop contract declares as optional integers: lc['optional_ints'] (a list), or every undeclared None-initialised name when lc['optional_ints'] == '*'"""
+        oi = lc.get("optional_ints", "*")
+        return _AnyName() if oi == "*" else tuple(oi)
 
     def havoc(self, st, names, objs, tag):
         for nm in names:
